@@ -346,6 +346,9 @@ func (e *FE) callGen(call ssa.CallInstruction) Facts {
 		return emptyFacts()
 	}
 	fs := emptyFacts().with("called:"+n, "called:"+n+e.argSig(call))
+	if rp := e.recvPath(call); rp != "" {
+		fs = fs.with("called:" + n + "[" + rp + "]")
+	}
 	callees := e.c.Callees(call)
 	if len(callees) == 0 {
 		return fs
@@ -725,4 +728,14 @@ func (e *FE) WhyMissing(in ssa.Instruction, fact string) []string {
 		cur = next
 	}
 	return out
+}
+
+// recvPath: for a statically resolved method call, the access path of the receiver.
+func (e *FE) recvPath(call ssa.CallInstruction) string {
+	cc := call.Common()
+	sc := cc.StaticCallee()
+	if sc == nil || sc.Signature.Recv() == nil || len(cc.Args) == 0 {
+		return ""
+	}
+	return e.c.AddrPath(cc.Args[0])
 }
